@@ -287,9 +287,11 @@ def _after_step(ctx, prog, tr, cur_vals, d, assess_fn, obs_leaves, op):
     status, ref = gfi.coherence(ctx, op, prog, cur_vals, tr, d, assess_fn, args, allow_outside=True)
     if status != "ok":
         return status, ref
-    if not gfi.args_recorded(tr, args):
-        ctx.violation(f"{op}|get_args-differs", {**d, "expected_args": cur_vals})
-        return "bad", ref
+    ap = gfi.args_problem(tr, args)
+    if ap is not None:
+        ctx.violation(f"{op}|get_args-differs" + ap, {**d, "expected_args": cur_vals})
+        if not ap.endswith("recorded-per-lane"):
+            return "bad", ref
     got = R.flat_leaves(R.to_numpy(tr.get_choices()))
     for p, v in obs_leaves.items():
         if p not in got or np.shape(got[p]) != np.shape(v) or not np.array_equal(np.asarray(got[p]), np.asarray(v).astype(np.asarray(got[p]).dtype)):
